@@ -160,6 +160,27 @@ def run(pid, tier):
         hist["xml"] += 1
         hist["history_calls"] += len(h)
         hist["pattern_twins"] = hist.get("pattern_twins", 0) + 1
+    # an expensive input before a cheap one: whatever a call switches on for itself when its work explodes (a cheaper
+    # strategy, a cut-off, a cache) must not stay switched on for the next input.  History: a conjunction of wide
+    # disjunctions (hundreds of combinations); probe: a conjunction of two small disjunctions whose result depends on
+    # the strategy.
+    def wide(rng):
+        kws = [("minimum", lambda i: i), ("maximum", lambda i: 100 * i), ("multipleOf", lambda i: i), ("exclusiveMaximum", lambda i: 1000 + i)]
+        rng.shuffle(kws)
+        w = rng.choice([5, 6, 7])
+        return {"type": "number", "allOf": [{"anyOf": [{k: f(i)} for i in range(1, w + 1)]} for k, f in kws[:3]]}
+    def narrow(rng):
+        a = rng.sample([{"type": "string"}, {"type": "number"}, {"type": "array"}, {"type": "boolean"}], rng.choice([2, 3]))
+        b = rng.sample([{"minLength": 3}, {"minimum": 7}, {"minItems": 2}, {"maxLength": 5}], 2)
+        return {"allOf": [{"anyOf": a}, {"anyOf": b}]}
+    for _ in range(3 if tier == "quick" else 24):
+        kind = rng.choice(["json", "json", "normalize"])
+        h = [[rng.choice(["json", "normalize"]), wide(rng)]] + [gen_action(rng) for _ in range(rng.choice([0, 1]))]
+        rng.shuffle(h)
+        jobs.append({"history": h, "probe": [kind, narrow(rng)], "seed": rng.randrange(1000)})
+        hist[kind] += 1
+        hist["history_calls"] += len(h)
+        hist["wide_then_narrow"] = hist.get("wide_then_narrow", 0) + 1
     # same process: history then probe, all in this interpreter... but one interpreter per job keeps jobs independent
     def both(job):
         with_history = fresh(job, hashseed)
@@ -191,6 +212,45 @@ def run(pid, tier):
                     i += 1
             ck.violation("history-dependent:" + job["probe"][0], "the %s probe gives different labelled samples after a history of %d calls than in a fresh interpreter" % (
                 job["probe"][0], len(h)), {"job": dict(job, history=h), "with_history": a["obs"][:6], "fresh": b["obs"][:6]})
+    # core histories: generate_paths() on one node of a hand-built graph, then on another node of the same graph (a
+    # sub-decision after the root, or the root after a sub-decision): the second enumeration must equal the one on a
+    # fresh build of the same graph -- the distance annotations a run leaves on transitions it shares with, or that
+    # lead into, the second run's sub-graph must not steer it.
+    import graphs
+    fences_env.load()
+    sys.setrecursionlimit(max(sys.getrecursionlimit(), 2600))
+
+    def enumerate_from(nodes, k):
+        try:
+            return [[bool(e.is_valid), list(e.path)] for e in nodes[k].generate_paths()]
+        except RecursionError:
+            return "RecursionError"
+        except Exception as e:  # noqa
+            return type(e).__name__
+
+    core_n = 400 if tier == "quick" else 6000
+    core_hist = {"sub_after_root": 0, "root_after_sub": 0}
+    for i in range(core_n):
+        gen = rng.choice([graphs.random_program, graphs.productive_cyclic_program])
+        ops, root = gen(rng, rng.choice([4, 6, 9])) if gen is graphs.productive_cyclic_program else gen(rng, rng.choice([4, 6, 9]), allow_bad=False)
+        kinds, outs = graphs._tables(ops)
+        subs = [k for k in range(len(kinds)) if k != root and kinds[k][0] == 'D' and outs[k]]
+        if not subs:
+            continue
+        d = rng.choice(subs)
+        first, second = (root, d) if i % 2 == 0 else (d, root)
+        core_hist["sub_after_root" if i % 2 == 0 else "root_after_sub"] += 1
+        nodes = graphs.build(ops)
+        enumerate_from(nodes, first)
+        after = enumerate_from(nodes, second)
+        alone = enumerate_from(graphs.build(ops), second)
+        ck.count("core" + json.dumps([ops, first, second]), True)
+        if after != alone:
+            ck.violation("history-dependent:core", "generate_paths() on node %d gives other entries after generate_paths() on node %d of the same graph than on a fresh build" % (second, first),
+                         {"core": {"ops": [list(o) for o in ops], "first": first, "second": second}, "after": after if isinstance(after, str) else after[:8],
+                          "fresh": alone if isinstance(alone, str) else alone[:8]})
+            break
+    hist.update(core_hist)
     ck.sample({"history": [a[0] for a in jobs[0]["history"]], "probe": jobs[0]["probe"][0]})
     ck.cov["rule"] = ("random histories of 3-12 calls over parse_json_schema / normalize / parse_regex / parse_grammar / parse_xml_schema, each followed by (possibly partially "
                       "consumed) generate_paths and repeated execute, then a probe input (half of the time one already seen in the history); the probe is compared with a fresh "
@@ -204,6 +264,23 @@ def run(pid, tier):
 
 def replay(pid, path):
     d = json.load(open(path))
+    if "core" in d:
+        import graphs
+        fences_env.load()
+        sys.setrecursionlimit(2600)
+        c = d["core"]
+        ops = [tuple(o) for o in c["ops"]]
+
+        def en(nodes, k):
+            try:
+                return [[bool(e.is_valid), list(e.path)] for e in nodes[k].generate_paths()]
+            except Exception as e:  # noqa
+                return type(e).__name__
+        nodes = graphs.build(ops)
+        en(nodes, c["first"])
+        bad = en(nodes, c["second"]) != en(graphs.build(ops), c["second"])
+        print("replayed:", "differs" if bad else "same")
+        return 1 if bad else 0
     job = d["job"]
     hs = os.environ.get("PYTHONHASHSEED", "0")
     a = fresh(job, hs)
